@@ -150,7 +150,10 @@ def same_float(impl, model):
                 return False
         elif not C.close(a, b, rel=0.0, ulps=4):
             return False
-    return all(C.close(a, b, rel=0.0, ulps=4) for a, b in zip(impl[2], model[2]))
+    # cells rank / reliability / crps_potential of an EMPTY inner bin (g = 0: the model has 0/0 = NaN there) are
+    # not constrained by the property (the row never enters a sum): not compared
+    return all(C.close(a, b, rel=0.0, ulps=4) for k, (a, b) in enumerate(zip(impl[2], model[2]))
+               if not (isnan(b) and k % 7 in (4, 5, 6)))
 
 
 def same_exact(impl, modelq, n, m):
@@ -166,7 +169,7 @@ def same_exact(impl, modelq, n, m):
 
     def ok(a, q, sc):
         if q is None:
-            return isnan(a)
+            return True          # 0/0 cell of an empty inner bin: unconstrained
         return (not isnan(a)) and math.isfinite(a) and abs(Fraction(a) - q) <= tol * sc
     return (all(ok(a, q, scale) for a, q in zip(impl[1], modelq[1])) and
             all(ok(a, q, Fraction(1) if k % 7 in (0, 4) else scale) for k, (a, q) in enumerate(zip(impl[2], modelq[2]))))
@@ -309,9 +312,9 @@ class Oracle:
         for k, (x, y) in enumerate(zip(res[2], other[2])):
             col = k % 7
             ff = f if col in (1, 2, 3, 5, 6) else Fraction(1)
-            if isnan(x) != isnan(y):
-                bad.append(f"table[{k // 7}].{COLS[col]}")
-            elif not isnan(x) and not qclose(y, fr(x) * ff, self.tolfreq if col in (0, 4) else tolg * f):
+            if isnan(x) or (isnan(y) and col in (4, 5, 6)):
+                continue         # empty inner bin: cell unconstrained
+            elif not qclose(y, fr(x) * ff, self.tolfreq if col in (0, 4) else tolg * f):
                 bad.append(f"table[{k // 7}].{COLS[col]}")
         if bad:
             self.flag(sig, what, case, differs=bad[:6], **(extra or {}))
